@@ -69,4 +69,14 @@ def vtpIndexRanges : List Nat → Nat → List (List Nat)
   | [], _ => []
   | n :: ns, start => (List.range n).map (start + ·) :: vtpIndexRanges ns (start + n)
 
+/-- `VTPReader._make_mesh`, whole: the sections in the fixed order Verts, Lines, Polys, Strips, each
+    given as (cell type id, count attribute `NumberOf…`, flat connectivity, offsets).  Sections whose
+    count attribute is 0 are skipped; the rows come from the offsets array, the index ranges from the
+    cumulative sum of the count ATTRIBUTES.  Same result type as `vtuLayout`, so `splitCellData`
+    (`_make_cell_data_array`) applies to it. -/
+def vtpLayout (secs : List (Nat × Nat × List Nat × List Nat)) : List (Nat × List (List Nat) × List Nat) :=
+  let present := secs.filter (fun s => 0 < s.2.1)
+  let ranges := vtpIndexRanges (present.map (·.2.1)) 0
+  (present.zip ranges).map (fun sr => (sr.1.1, vtpRows sr.1.2.2.1 sr.1.2.2.2, sr.2))
+
 end Fc
